@@ -43,9 +43,11 @@ class SDVRP(Adapter):
         return with_ids(insts)
 
     def group_key(self, inst):
-        # total demand in the key: the expansion depth of a group is the largest step_cap in it,
-        # so instances with few loads are not dragged to the depth of those with many
-        return (inst["N"], inst["cap"], sum(inst["dem"]))
+        # number of full loads in the key: the expansion depth of a group is the largest step_cap
+        # in it, so instances with few loads are not dragged to the depth of those with many
+        # (N >= 4: the total demand itself, to keep the groups -- and a runaway frontier -- small)
+        total = sum(inst["dem"])
+        return (inst["N"], inst["cap"], total if inst["N"] >= 4 else total // inst["cap"])
 
     def step_cap(self, inst):
         """depth at which the exhaustive expansion gives up (such an episode fails C02).  One more
